@@ -269,6 +269,27 @@ func devEnumerate(s *devSeed, thorough bool, ofHeader bool, yield func(dev strin
 			}
 		}
 	}
+	if !ofHeader && n >= 1 {
+		// packets: the same header followed by filler up to an MTU, a jumbo frame, and the largest
+		// payload a packet-in can carry (16-bit size arithmetic in a decoder shows only here)
+		totals := []int{1500, 65535}
+		if thorough {
+			totals = []int{1500, 9000, 32768, 65535, 65536 + 64}
+		}
+		for _, total := range totals {
+			if total <= n {
+				continue
+			}
+			for _, f := range []byte{0x00, 0xff} {
+				c := make([]byte, total)
+				copy(c, b)
+				for i := n; i < total; i++ {
+					c[i] = f
+				}
+				yield(fmt.Sprintf("extend to %d with %#02x", total, f), c)
+			}
+		}
+	}
 	if !thorough {
 		return
 	}
